@@ -101,6 +101,12 @@ func C17(e *Env) {
 			}
 		}
 	}
+	// the same base name in different directories with different sector sizes (anything remembered
+	// about an image must be keyed by the object, not by its name)
+	for i, S := range cdSectorSizes {
+		must(os.MkdirAll(filepath.Join(root, fmt.Sprintf("d%d", i)), 0o755))
+		imgs = append(imgs, &cdImage{rel: fmt.Sprintf("d%d/game.bin", i), S: S, sig: []string{"iso", "psx"}[i%2], size: sizes["mid"] + int64(i), wantS: S})
+	}
 	hotOf := func(img *cdImage) []int64 {
 		last := (img.size-24-2048)/img.wantS - 0
 		return []int64{100, 1000, last - 5, last - 1, last}
